@@ -70,8 +70,15 @@ def install(arm):
 
     def open_(file, mode="r", *a, **kw):
         f = real_open(file, mode, *a, **kw)
-        if arm.on and isinstance(mode, str) and any(c in mode for c in "wax+") and _lib_caller(2):
-            return _WProxy(f, os.fspath(file) if not isinstance(file, int) else str(file), arm)
+        if arm.on and isinstance(mode, str) and any(c in mode for c in "wax+"):
+            # a crash point right AFTER a write-mode open returned (the file may be truncated now),
+            # whoever opened it on the library's behalf (e.g. shutil)
+            arm.ios.append("opened-for-write")
+            arm.io_lines.append(arm.lines)
+            if arm.kind == "io" and len(arm.ios) == arm.k:
+                arm.die()
+            if _lib_caller(2):
+                return _WProxy(f, os.fspath(file) if not isinstance(file, int) else str(file), arm)
         return f
 
     builtins.open = open_
